@@ -154,6 +154,8 @@ func checkC04(p *Program, r *Result) {
 	checkChunkTimesUnused(p, r, "C04.t")
 	r.rule("C04.n", "a chunk index without message indexes is never dropped by the topic filter", 0)
 	checkKeepWithoutMessageIndexes(p, r, "C04.n")
+	r.rule("C04.k", "an in-place filter of the chunk index list is stored back", 1)
+	checkInPlaceFilterStoredBack(p, r, "C04.k")
 	r.rule("C04.g", "Finalize only copies deprecated companions into window fields", 1)
 	checkFinalizeStores(p, r)
 
